@@ -58,16 +58,33 @@ Lemma nested_tables_inherit : parser_nested_tables_inherit = true.
 Proof. reflexivity. Qed.
 Lemma view_refs_recorded : parser_view_refs_recorded = true.
 Proof. reflexivity. Qed.
+(* the same for F26 (c4379c0dc), F27 (baaf1a89d), F28 (11fb61cf8), F29 (d76d5c0c4) *)
+Lemma lookup_respects_package : parser_lookup_respects_package = true.
+Proof. reflexivity. Qed.
+Lemma inherits_in_own_package : parser_inherits_in_own_package = true.
+Proof. reflexivity. Qed.
+Lemma inherited_grants_once : parser_inherited_grants_once = true.
+Proof. reflexivity. Qed.
+Lemma descriptor_refs_analysed : parser_descriptor_refs_analysed = true.
+Proof. reflexivity. Qed.
 
 (* The faithful model of the Go compiler against the spec - the link theorem: for every well-formed
    schema the model compiles it and the oracle `satisfies` accepts the model's output (so the
-   property holds on every input on which compiler and model agree).
-
-   Four more points are read off the source (findings F26..F29; the flags are `false` as long as a
-   repair is missing).  Each hypothesis below reads "the compiler does it the spec's way, or the schema
-   stays clear of the shape": the hypotheses the proof forces ARE the findings.  With a flag `true`
-   its hypothesis holds for every schema (`or_introl`), and the theorem is the unconditional one. *)
+   property holds on every input on which compiler and model agree).  No hypothesis beyond `wf a`:
+   the seven points at which compilers of this family have differed are read off the source, and the
+   source does all seven the spec's way (side conditions above). *)
 Theorem go_model_meets_spec :
+  forall a, wf a = true ->
+  exists d, compile a Go = Some d /\ satisfies (Trace a (render a) (Compiled d true true)) = true.
+Proof.
+  exact (go_meets_spec_proved uniques_numbered_per_type nested_tables_inherit view_refs_recorded
+                              inherited_grants_once lookup_respects_package inherits_in_own_package descriptor_refs_analysed).
+Qed.
+
+(* the form the theorem had while the repairs of F26..F29 were missing: each hypothesis reads "the
+   compiler does it the spec's way, or the schema stays clear of the shape" - the hypotheses the proof
+   forced were the findings *)
+Theorem go_model_meets_spec_within :
   forall a, wf a = true ->
   (parser_inherited_grants_once = true \/ no_inherited_acl a = true) ->       (* F28 *)
   (parser_lookup_respects_package = true \/ names_distinct a = true) ->       (* F26 *)
@@ -79,10 +96,11 @@ Proof. exact (go_meets_spec_within_proved uniques_numbered_per_type nested_table
 (* item for item: the model's output is the spec's output (a workspace's ACL is its declared block of
    rules, once) *)
 Theorem go_model_item_for_item :
-  forall a, (parser_inherited_grants_once = true \/ no_inherited_acl a = true) ->
-  (parser_descriptor_refs_analysed = true \/ no_desc_ref_targets a = true) ->
-  Forall2 item_ok (compile_items a Ideal) (compile_items a Go).
-Proof. exact (go_item_for_item_proved uniques_numbered_per_type nested_tables_inherit view_refs_recorded). Qed.
+  forall a, Forall2 item_ok (compile_items a Ideal) (compile_items a Go).
+Proof.
+  exact (fun a => go_item_for_item_proved uniques_numbered_per_type nested_tables_inherit view_refs_recorded a
+                   (or_introl inherited_grants_once) (or_introl descriptor_refs_analysed)).
+Qed.
 
 (* The same for any compiler of this family (mode m): at each of the seven points it does what the
    spec does, or the schema avoids the shape on which they differ ... *)
@@ -122,8 +140,8 @@ Example before_repair_refuted_F25 :
   /\ no_unique_collision a_f25 GoBefore = true /\ no_nested_user_inherit a_f25 = true /\ no_view_ref_targets a_f25 = false.
 Proof. split; [vm_compute; reflexivity|]. split; [eexists; split; vm_compute; reflexivity|]. vm_compute. repeat split. Qed.
 
-(* ... the same for F26..F29: each variant below is the spec's compiler with ONE point switched to the
-   old behaviour; each probe is well-formed and hits exactly that shape (corpus/C17/f26..f29).
+(* ... the same for F26..F29 (repaired since): each variant below is the spec's compiler with ONE point
+   switched to the old behaviour; each probe is well-formed and hits exactly that shape (corpus/C17/f26..f29).
    F28 and F29 compile to something the oracle refuses (a rule three times; reference targets lost);
    for F26 and F27 the old name resolution is not modelled - `compile` yields None there and `agrees`
    abstains - the real compiler miscompiled the first (liba.Foo with app1.Foo's fields) and refused
@@ -157,9 +175,9 @@ Example lost_descriptor_refs_refuted_F29 :
   exists d, compile a_f29 (Mode true true true false true true false) = Some d
             /\ satisfies (Trace a_f29 (render a_f29) (Compiled d true true)) = false.
 Proof. eexists; split; vm_compute; reflexivity. Qed.
-(* and the spec's compiler (= every repair present) passes on all of them *)
-Example spec_compiler_on_the_probes :
-  forallb (fun a => match compile a Ideal with
+(* and the compiler as it is passes on all of them *)
+Example repaired_compiler_on_the_probes :
+  forallb (fun a => match compile a Go with
                     | Some d => satisfies (Trace a (render a) (Compiled d true true))
                     | None => false end) [a_f26; a_f27t; a_f27w; a_f28; a_f29] = true.
 Proof. vm_compute. reflexivity. Qed.
@@ -180,7 +198,7 @@ Definition ex : schema := [(Pkg "app1"%string [[(Ws "W1"%string false [(QR "liba
 Example ex_nonvacuous :
   wf ex = true
   /\ List.length (compile_items ex Ideal) = 11%nat
-  /\ (exists d, compile ex Ideal = Some d /\ satisfies (Trace ex (render ex) (Compiled d true true)) = true)
+  /\ (exists d, compile ex Go = Some d /\ satisfies (Trace ex (render ex) (Compiled d true true)) = true)
   /\ match find (fun i => qname_eqb (item_key i) ("app1", "T2Row")%string) (compile_items ex Ideal) with
      | Some (ItStruct _ k _ _ _ fs _ us) =>
        k = KCRecord /\ map fd_name fs = ["sys.QName"; "sys.ID"; "sys.ParentID"; "sys.Container"; "sys.IsActive";
@@ -215,6 +233,7 @@ Print Assumptions declared_once.
 Print Assumptions fields_system_inherited_declared.
 Print Assumptions declared_fields_in_order.
 Print Assumptions go_model_meets_spec.
+Print Assumptions go_model_meets_spec_within.
 Print Assumptions go_model_item_for_item.
 Print Assumptions any_mode_meets_spec_conditional.
 Print Assumptions before_repair_refuted_F23.
@@ -226,6 +245,6 @@ Print Assumptions old_name_lookup_not_the_spec_F26.
 Print Assumptions old_inherits_resolution_not_the_spec_F27.
 Print Assumptions repeated_acl_refuted_F28.
 Print Assumptions lost_descriptor_refs_refuted_F29.
-Print Assumptions spec_compiler_on_the_probes.
+Print Assumptions repaired_compiler_on_the_probes.
 Print Assumptions ex_nonvacuous.
 Print Assumptions ex_declares_role.
